@@ -1,4 +1,5 @@
 import UPVerif.Spec.Successor
+import UPVerif.Core.SimTyped
 /-
 What "a sequential plan is valid" and "the value of the metric" MEAN, written against the documented
 one-step semantics `Spec.apply` of `Spec/Successor.lean` (C01) — no loop, no accumulator, no exception
@@ -7,14 +8,14 @@ handling.  Read it in five minutes:
 * a state is only ever looked at through its readings `s.get W.P : GKey → Option Val`;
 * `Exec W s π pres sf`: the plan `π` is EXECUTABLE from `s` and ends in `sf`; `pres` lists the state
   in which each step is taken.  One step `ai = (a, args)` from `s` to `s₁` is allowed iff `a` is an
-  action of the problem and the documented successor `Spec.apply W s a args` exists and is what `s₁`
-  reads;
+  action of the problem and the documented successor `Spec.applyT W s a args` (C01's successor of the
+  instance, actual parameters read by the types of the formal ones) exists and is what `s₁` reads;
 * the plan is VALID iff it is executable from the initial state and every goal holds in the final
   state (`Spec.isGoal`; a goal that reads a fluent without value does not hold);
 * metric values:
     - action costs: the sum over the steps of the action's cost expression (the one listed for the
-      action, else the default) with the actual parameters substituted, evaluated in the state in
-      which the step is taken (its PRE-state);
+      action, else the default) with the actual parameters OF THAT STEP substituted (objects,
+      Booleans, integers, reals), evaluated in the state in which the step is taken (its PRE-state);
     - plan length: the number of steps;
     - minimize / maximize expression on final state: the value of the expression in the final state;
     - oversubscription: the sum of the weights of the listed goals that hold in the final state.
@@ -24,16 +25,27 @@ handling.  Read it in five minutes:
 namespace UPVerif.Spec
 open UPVerif UPVerif.Sim
 
-/-- a plan step: the action and the names of the objects given as actual parameters -/
+/-- a plan step: the action and its actual parameters, each written as the string that spells the constant
+    (`Sim.argExpr`: an object name for a user-typed parameter, `true`/`false`, an integer, `n` or `n/d`
+    for a Boolean / integer / real one) -/
 abbrev PlanStep := Action × List String
+
+/-- the documented result of applying action `a` with the actual parameters spelled by `args` in `s`: C01's
+    documented successor (`Spec.successor`, `Spec/Successor.lean`) of the instance grounded with the actual
+    parameters read by the types of the formal ones (`Sim.groundT`).  For an action whose parameters are all
+    user-typed this IS C01's `Spec.apply` (`applyT_eq_apply`, `Lemmas/ArgLitLemmas.lean`). -/
+def applyT (W : World) (s : SimState) (a : Action) (args : List String) : Option (GKey → Option Val) :=
+  match groundT W a args with
+  | .ok (some g) => successor W s g
+  | _ => none
 
 /-- one documented step: `s₁` reads as the documented successor of `s` under the instance `ai` -/
 def StepOK (W : World) (s : SimState) (ai : PlanStep) (s₁ : SimState) : Prop :=
-  ai.1 ∈ W.P.actions ∧ Spec.apply W s ai.1 ai.2 = some (s₁.get W.P)
+  ai.1 ∈ W.P.actions ∧ Spec.applyT W s ai.1 ai.2 = some (s₁.get W.P)
 
 /-- no documented step exists -/
 def Stuck (W : World) (s : SimState) (ai : PlanStep) : Prop :=
-  ai.1 ∉ W.P.actions ∨ Spec.apply W s ai.1 ai.2 = none
+  ai.1 ∉ W.P.actions ∨ Spec.applyT W s ai.1 ai.2 = none
 
 /-- `Exec W s π pres sf`: `π` is executable from `s`, step `j` is taken in `pres[j]`, the run ends in `sf` -/
 inductive Exec (W : World) : SimState → List PlanStep → List SimState → SimState → Prop where
@@ -57,7 +69,7 @@ def costExpr (costs : List (String × Expr)) (dflt : Option Expr) (a : Action) :
 def costOf (W : World) (costs : List (String × Expr)) (dflt : Option Expr) (ai : PlanStep) (s : SimState) : Option Rat :=
   match costExpr costs dflt ai.1 with
   | none => none
-  | some c => if ai.1.params.length = ai.2.length then numVal W s (substE (paramSubst W.P ai.1 ai.2) c) else none
+  | some c => if ai.1.params.length = ai.2.length then numVal W s (substE (paramSubstT W.P ai.1 ai.2) c) else none
 
 /-- sum of the step costs over (step, pre-state) pairs -/
 def costSum (W : World) (costs : List (String × Expr)) (dflt : Option Expr) : List PlanStep → List SimState → Option Rat
